@@ -72,19 +72,26 @@ impl<T: Config> InputQueue<T> {
     /// gap. The caller is responsible for sending these to remote peers so they see consecutive
     /// frame numbers.
     pub(crate) fn set_frame_delay(&mut self, delay: usize) -> Vec<PlayerInput<T::Input>> {
-        let old_delay = self.frame_delay;
         self.frame_delay = delay;
 
-        if delay <= old_delay || self.last_added_frame == NULL_FRAME {
+        if self.last_added_frame == NULL_FRAME {
             return Vec::new();
         }
 
-        let fill_count = delay - old_delay;
-        let fill_start = self.last_added_frame + 1;
+        // The next submission (user frame `last_user_frame + 1`) will land on `next_frame`. If that
+        // leaves a gap after the newest queued frame, close it right away with copies of the newest
+        // input: the queue then really holds every frame reported to the caller, and the gap is
+        // measured from where the queue stands now, not from the previous delay value (the two
+        // differ while submissions are still being dropped after a decrease).
+        let next_frame = self.last_user_frame + 1 + delay as i32;
         let last_input = self.inputs[Self::prev_pos(self.head)];
-        (0..fill_count as i32)
-            .map(|i| PlayerInput::new(fill_start + i, last_input.input))
-            .collect()
+        let mut fills = Vec::new();
+        while self.last_added_frame + 1 < next_frame {
+            let fill_frame = self.last_added_frame + 1;
+            self.add_input_by_frame(last_input, fill_frame);
+            fills.push(PlayerInput::new(fill_frame, last_input.input));
+        }
+        fills
     }
 
     pub(crate) fn reset_prediction(&mut self) {
